@@ -106,6 +106,38 @@ Theorem C08_squash_identity :
 Proof. exact squash_identity. Qed.
 Print Assumptions C08_squash_identity.
 
+(* `stg pick`: every patch of the result carries the identity of a patch of the stack before or
+   (the picked patch) the identity of the commit that was picked *)
+Theorem C08_pick_identity :
+  forall lower_s, LowerOK lower_s ->
+  forall w src nm na w' x n o',
+    Inv w -> step lower_s w (CPick src nm na) = (w', x) -> patch_commit w' n = Some o' ->
+    (exists a o, patch_commit w a = Some o /\ ident_of (w_objs w') o' = ident_of (w_objs w) o)
+    \/ (exists op o, open_stack PAuto w = Some op /\ pick_source op src = Some o
+                     /\ ident_of (w_objs w') o' = ident_of (w_objs w) o).
+Proof. exact pick_identity. Qed.
+Print Assumptions C08_pick_identity.
+
+(* `stg pick --noapply` that succeeds: exactly one new patch, the first unapplied one; its
+   commit has the source's tree and first parent (its change) and identity; every other patch
+   keeps its commit, the applied patches and the branch head do not move *)
+Theorem C08_pick_noapply_copies :
+  forall lower_s, LowerOK lower_s ->
+  forall w src nm w' op o s s',
+    Inv w -> open_stack PAuto w = Some op -> pick_source op src = Some o ->
+    step lower_s w (CPick src nm true) = (w', X0) ->
+    cur_state (op_world op) = Some s -> cur_state w' = Some s' ->
+    exists n o',
+      s_unapplied s' = n :: s_unapplied s /\ s_applied s' = s_applied s /\ s_hidden s' = s_hidden s
+      /\ pm_get (s_patches s) n = None /\ pm_get (s_patches s') n = Some o'
+      /\ (forall m, m <> n -> pm_get (s_patches s') m = pm_get (s_patches s) m)
+      /\ tree_of (w_objs w') o' = tree_of (w_objs w) o
+      /\ first_parent (w_objs w') o' = first_parent (w_objs w) o
+      /\ ident_of (w_objs w') o' = ident_of (w_objs w) o
+      /\ w_branch w' = w_branch w.
+Proof. exact pick_noapply_copies. Qed.
+Print Assumptions C08_pick_noapply_copies.
+
 From StgV Require Import Model.Encoding Proofs.EncodingProofs.
 Local Open Scope N_scope.
 
